@@ -109,27 +109,40 @@ def run_builtin(job, res):
         sv = fresh()
         data = {"start": start, "walk": w["targets"], "how": "Cov on a cartesian state in `start`; cov.frame = t for t in walk; "
                 "compared with one hop from a fresh object"}
+        acts = w.get("acts") or [["cov", t] for t in w["targets"]]
+        data["acts"] = acts
         try:
-            for t in w["targets"]:
-                sv.cov.frame = t
+            for kind, t in acts:
+                if kind == "cov":
+                    sv.cov.frame = t
+                else:
+                    sv.frame = t          # the state itself changes frame; a covariance in the state's frame follows
         except Exception as e:
             clause("frame changes of a covariance complete", False, "cov/raises", f"{type(e).__name__}: {e} on {w}", data)
             continue
         res["evaluations"] += 1
         res["traces"] += 1
-        last = w["targets"][-1]
+        last = w.get("cf", w["targets"][-1])     # frame the covariance must end in according to the specification
+        cur = sv.cov.frame if isinstance(sv.cov.frame, str) else sv.cov.frame.name
+        if cur != last:
+            clause("the covariance ends in the frame the specification says", False, "cov/state-follow",
+                   f"{start} {acts}: covariance in {cur}, expected {last}", data)
+            continue
         ref = fresh()
-        ref.cov.frame = last
+        if last != start:
+            ref.cov.frame = last
         got, want = np.asarray(sv.cov, float), np.asarray(ref.cov, float)
         sc = np.sqrt(np.outer(np.diag(want), np.diag(want)))
         err = float((np.abs(got - want) / sc).max())
         loc = [t for t in w["targets"] if t in ("QSW", "TNW")]
         key = "cov/path-dependent" if (last in ("QSW", "TNW") or loc) else "cov/path-dependent-regular"
+        if any(k == "state" for k, _t in acts):
+            key = "cov/state-follow"
         kinds.add((start, len(w["targets"]), last in ("QSW", "TNW")))
         clause("built-in frames: the covariance depends only on the target frame, not on the frames visited before", err <= 1e-7,
                key, f"walk {start}->{w['targets']}: relative deviation {err:.3g} from the one-hop result", data)
         # single hop judged as J C J^T with J obtained independently of cov.py
-        if len(w["targets"]) == 1:
+        if len(acts) == 1 and acts[0][0] == "cov":
             s0 = fresh()
             if last in ("QSW", "TNW"):
                 j3 = local_mat(last, s0[:3], s0[3:])
